@@ -395,3 +395,57 @@ func isConfigType(t types.Type) bool {
 	}
 	return false
 }
+
+// RuleTrust — (thorough tier) the trust table's contracts for gnark-crypto callees are re-derived from
+// gnark-crypto's own SSA: a callee that may write through a parameter the table declares read-only is reported.
+func RuleTrust(c *Ctx) {
+	if c.Tier != "thorough" {
+		return
+	}
+	c.Rule("TR", "trust-table audit (thorough tier): for every gnark-crypto function called from the module, the write summary computed from gnark-crypto's source is within the contract the trust table assumes")
+	trusted := c.wfxGet()
+	full := newWfx(c.P, true)
+	seen := map[*ssa.Function]bool{}
+	n := 0
+	for _, top := range trusted.tops {
+		for _, fn := range core.Family(top) {
+			for _, ci := range core.CallsIn(fn) {
+				callee := core.Callee(ci.Common())
+				if callee == nil || core.InModule(callee) || seen[callee] || len(callee.Blocks) == 0 {
+					continue
+				}
+				pk := callee.Pkg
+				if pk == nil && callee.Origin() != nil {
+					pk = callee.Origin().Pkg
+				}
+				if pk == nil || !strings.HasPrefix(pk.Pkg.Path(), "github.com/consensys/gnark-crypto/") {
+					continue
+				}
+				seen[callee] = true
+				ts := trustSummary(c.P, callee)
+				if ts == nil {
+					continue
+				}
+				cs := full.sums[callee]
+				if cs == nil {
+					cs = full.onDemand(callee)
+				}
+				n++
+				key := "gnark:" + callee.String()
+				var extra []string
+				for i := range cs.W {
+					if !ts.W[i] && i < len(callee.Params) {
+						extra = append(extra, callee.Params[i].Name())
+					}
+				}
+				sort.Strings(extra)
+				if len(extra) > 0 {
+					c.Bad("TR", key, ci.Pos(), fmt.Sprintf("the trust table assumes %s leaves %v read-only, but its source may write through them: %s", callee.String(), extra, full.describe(cs.Causes["param:"+extra[0]])))
+				} else {
+					c.OK("TR", key, callee.Pos(), "computed write set within the trusted contract")
+				}
+			}
+		}
+	}
+	c.FloorN("TR", 20, n, "gnark-crypto callees audited")
+}
